@@ -87,6 +87,7 @@ SNIPPETS = [
     "class A:\n    pass\nclass B:\n    pass\ndef kind(v):\n    match v:\n        case str() | bool():\n            return 's'\n        case A():\n            return 'a'\n        case _:\n            return '?'\nreturn kind(A()), kind(B()), kind('x'), kind(True), kind(3), isinstance(A(), A), isinstance(B(), A), isinstance(3, A), isinstance(A(), (int, A)), isinstance(A(), int)",
     "class N:\n    def __init__(self, n):\n        self.n = n\n    def __int__(self):\n        return self.n\n    def __invert__(self):\n        return N(-self.n)\n    def __len__(self):\n        return self.n\n    def __neg__(self):\n        return N(self.n + 100)\nz = N(0)\nk = N(2)\nreturn int(k), int(~k), (-k).n, bool(z), bool(k), ('t' if z else 'f'), ('t' if k else 'f'), not z, (z or 5), (k and 6), [x for x in (1, 2) if k]",
     "class G:\n    def __init__(self):\n        self.nodes = {}\n        self.edges = []\n    def add_node(self, u, **attrs):\n        self.nodes.setdefault(u, {}).update(attrs)\n    def add_edge(self, u, v, key=None, **attrs):\n        self.nodes.setdefault(u, {})\n        self.nodes.setdefault(v, {})\n        self.edges.append((u, v, dict(attrs)))\n    def __contains__(self, u):\n        return u in self.nodes\ng = G()\ng.add_node(3, level=0)\ng.add_edge(3, 1, value=False, complement=True)\ng.add_node(1, level=2)\nreturn g.nodes, g.edges, 1 in g, 7 in g",
+    "class K:\n    def __init__(self, n):\n        self.n = n\n    def __hash__(self):\n        return self.n\nreturn hash(5), hash(-1), hash(K(-1)), hash(K(7)), hash(True), f'@{hash(K(-1))}'",
     "class Swallow:\n    def __enter__(self):\n        return None\n    def __exit__(self, t, v, tb):\n        return t is not None\nwith Swallow():\n    raise KeyError('k')\nreturn 'after'",
     "xs = [1, 2, 3, 4]\nreturn xs[:-1], xs[1:], xs[::2], 'abcd'[1:3], (1, 2, 3)[:2]",
     "def f(a, b=0, **kw):\n    return a, b, kw\nd = dict(b=2, c=3)\nreturn f(1, **d), f(1, **{})",
